@@ -171,3 +171,15 @@ pub fn angular_distance(lat1: f64, lon1: f64, lat2: f64, lon2: f64) -> f64 {
     let c = p1.sin() * p2.sin() + p1.cos() * p2.cos() * dl.cos();
     c.clamp(-1., 1.).acos().to_degrees()
 }
+
+/// longitude in degrees wrapped into (-180, 180]
+pub fn wrap180(lon: f64) -> f64 {
+    let mut l = lon % 360.;
+    if l > 180. {
+        l -= 360.;
+    }
+    if l <= -180. {
+        l += 360.;
+    }
+    l
+}
